@@ -62,22 +62,22 @@ Qed.
 (* the characterising lemma: what parse_header does once the head is
    syntactically accepted *)
 
-(* the statements that only set connection_close: split on their conditions,
-   whatever they are (robust against further such statements in the model) *)
-Ltac cc_cases :=
-  cbn [negb andb];
-  repeat match goal with
-  | |- context [if beqb ?v s_1_0 && ?x then _ else _] => destruct (beqb v s_1_0 && x)
-  | |- context [if negb (beqb ?v s_1_1) && ?x then _ else _] =>
-      destruct (negb (beqb v s_1_1) && x)
-  | |- context [if match hget ?h s_TRANSFER_ENCODING with Some _ => true | None => false end then _ else _] =>
-      destruct (hget h s_TRANSFER_ENCODING)
-  end.
+Definition present (h : hdict) (k : bytes) : bool :=
+  match hget h k with Some _ => true | None => false end.
+
+(* parser.connection_close as parse_header leaves it *)
+Definition model_cc (h1 : hdict) (ver : bytes) : bool :=
+  (beqb ver s_1_0 && negb (beqb (lower_latin1 (hget_default h1 s_CONNECTION [])) s_keep_alive))
+  || (if beqb ver s_1_1 then
+        (match model_framing h1 ver with MChunked => present h1 s_CONTENT_LENGTH | _ => false end)
+        || existsb (fun t => beqb (strip_by is_sp_htab t) s_close)
+                   (split (lower_latin1 (hget_default h1 s_CONNECTION [])) [44])
+      else present h1 s_TRANSFER_ENCODING).
 
 Lemma parse_header_framing a p hp index lines h1 cmd uri ver sc nl pa qu fr :
-  chunked p = false -> body p = None ->
+  chunked p = false -> body p = None -> connection_close p = false ->
   find hp CRLF = Some index ->
-  let fl := rstrip_by is_bytes_ws (firstn index hp) in
+  let fl := rstrip_by is_reqline_ws (firstn index hp) in
   has_cr_or_lf fl = false ->
   get_header_lines (skipn (index + 2) hp) = inr lines ->
   add_header_lines (headers p) lines = inr h1 ->
@@ -91,28 +91,34 @@ Lemma parse_header_framing a p hp index lines h1 cmd uri ver sc nl pa qu fr :
   | MChunked =>
       st = PSOk /\ chunked p' = true /\ body p' = Some (BChunked chunked_init)
       /\ headers p' = hpop (hpop h1 s_TRANSFER_ENCODING) s_CONTENT_LENGTH
-      /\ (forall v, hget h1 s_CONTENT_LENGTH = Some v -> connection_close p' = true)
+      /\ connection_close p' = model_cc h1 ver
   | MLen n =>
       st = PSOk /\ chunked p' = false /\ body p' = Some (BFixed (fixed_init n)) /\ content_length p' = n
+      /\ connection_close p' = model_cc h1 ver
   | MNone =>
       st = PSOk /\ chunked p' = false /\ body p' = None /\ content_length p' = 0
+      /\ connection_close p' = model_cc h1 ver
   end.
 Proof.
-  intros Hch Hbody Hfind fl Hcr Hlines Hadd Hcrack Hne Hsplit.
+  intros Hch Hbody Hcc Hfind fl Hcr Hlines Hadd Hcrack Hne Hsplit.
   unfold parse_header. rewrite Hfind. fold fl. rewrite Hcr. cbn [headers set].
   rewrite Hlines.
   rewrite Hadd, Hcrack, Hne, Hsplit.
-  unfold model_framing, model_te_stage, model_cl_stage.
-  destruct (beqb ver s_1_1) eqn:E11.
+  unfold model_cc, present, model_framing, model_te_stage, model_cl_stage.
+  remember (beqb ver s_1_0 && negb (beqb (lower_latin1 (hget_default h1 s_CONNECTION [])) s_keep_alive)) as c10 eqn:X10.
+  remember (match hget h1 s_TRANSFER_ENCODING with Some _ => true | None => false end) as cte eqn:Xte.
+  remember (existsb (fun t => beqb (strip_by is_sp_htab t) s_close)
+                    (split (lower_latin1 (hget_default h1 s_CONNECTION [])) [44])) as clist eqn:Xl.
+  clear X10 Xte Xl.
+  destruct (beqb ver s_1_1) eqn:E11; cbn [negb andb].
   - (* HTTP/1.1 *)
     cbn [headers set].
     set (encs := te_encodings (hget_default h1 s_TRANSFER_ENCODING [])).
     destruct (forallb (fun e => beqb e s_chunked) encs) eqn:Eall; cbn [negb].
-    2:{ cc_cases; cbn; auto. }
+    2:{ destruct c10; cbn; auto. }
     destruct encs as [|e0 encs'] eqn:Eencs.
     + (* no transfer coding: Content-Length decides *)
-      cc_cases;
-      destruct (beqb (lower_latin1 (hget_default h1 s_CONNECTION [])) s_close);
+      destruct c10, clist;
       cbn -[matches gate_content_length int_max_str_digits dec_value lenN N.ltb hget_default];
       rewrite Hch;
       cbn -[matches gate_content_length int_max_str_digits dec_value lenN N.ltb hget_default];
@@ -121,18 +127,15 @@ Proof.
       (destruct (int_max_str_digits <? lenN (hget_default (hpop h1 s_TRANSFER_ENCODING) s_CONTENT_LENGTH s_0)) eqn:E2;
        [cbn; auto|]);
       (destruct (0 <? dec_value (hget_default (hpop h1 s_TRANSFER_ENCODING) s_CONTENT_LENGTH s_0)) eqn:E3;
-       cbn -[dec_value hget_default]; rewrite ?Hbody, ?Hch; repeat split; auto;
+       cbn -[dec_value hget_default]; rewrite ?Hbody, ?Hch, ?Hcc; repeat split; auto;
        apply N.ltb_ge in E3; lia).
     + destruct (length (e0 :: encs') =? 1)%nat eqn:Elen; cbn [negb].
-      2:{ cc_cases; cbn; auto. }
-      cc_cases;
-      destruct (beqb (lower_latin1 (hget_default h1 s_CONNECTION [])) s_close);
-      destruct (hget (hpop h1 s_TRANSFER_ENCODING) s_CONTENT_LENGTH) eqn:Ecl;
-      cbn; repeat split; auto; intros v Hv;
-      try reflexivity.
-      all: rewrite hget_hpop_other in Ecl by reflexivity; congruence.
+      2:{ destruct c10; cbn; auto. }
+      rewrite (hget_hpop_other h1 s_CONTENT_LENGTH s_TRANSFER_ENCODING eq_refl).
+      destruct c10, clist, (hget h1 s_CONTENT_LENGTH);
+      cbn; rewrite ?Hcc; repeat split; auto.
   - (* any other version *)
-    cc_cases;
+    destruct c10, cte;
     cbn -[matches gate_content_length int_max_str_digits dec_value lenN N.ltb hget_default];
     rewrite Hch;
     cbn -[matches gate_content_length int_max_str_digits dec_value lenN N.ltb hget_default];
@@ -140,16 +143,12 @@ Proof.
      cbn -[int_max_str_digits dec_value lenN N.ltb hget_default]; [|auto]);
     (destruct (int_max_str_digits <? lenN (hget_default h1 s_CONTENT_LENGTH s_0)) eqn:E2; [cbn; auto|]);
     (destruct (0 <? dec_value (hget_default h1 s_CONTENT_LENGTH s_0)) eqn:E3;
-     cbn -[dec_value hget_default]; rewrite ?Hbody, ?Hch; repeat split; auto;
+     cbn -[dec_value hget_default]; rewrite ?Hbody, ?Hch, ?Hcc; repeat split; auto;
      apply N.ltb_ge in E3; lia).
 Qed.
 
 (* ---------------------------------------------------------------- *)
 (* T3: the model's choice is the RFC 9112 section 6.3 choice *)
-
-Definition dev_te_ws : devs :=
-  {| dv_trailer := false; dv_empty_chunk_line := false; dv_reqline_lf := false; dv_te_http10 := false;
-     dv_clte_keepalive := false; dv_conn_list := false; dv_te_ws_element := true; dv_target_dslash := false |}.
 
 Lemma hget_lookup h k : hget h k = lookup h k.
 Proof. induction h as [|[k' v] h IH]; cbn; auto. Qed.
@@ -165,12 +164,25 @@ Lemma forallb_ext_b {A} (f g : A -> bool) l : (forall x, f x = g x) -> forallb f
 Proof. intro H. induction l as [|x l IH]; simpl; auto. rewrite H, IH. reflexivity. Qed.
 
 (* the Transfer-Encoding element list of the model, in the reference's terms *)
+Definition te_keep (e : bytes) : bool := nonempty (trim is_ows e).
+
 Lemma te_encodings_elems te :
-  te_encodings te = map (fun e => lower_latin1 (trim is_ows e)) (filter nonempty (split_on 44 te [])).
+  te_encodings te = map (fun e => lower_latin1 (trim is_ows e)) (filter te_keep (split_on 44 te [])).
 Proof.
   unfold te_encodings. rewrite split_comma.
-  rewrite (filter_ext_b (fun e => negb (beqb e [])) nonempty) by (intros [|? ?]; reflexivity).
-  apply map_ext. intro e. rewrite strip_sp_htab. reflexivity.
+  rewrite (filter_ext_b (fun e => negb (beqb (strip_by is_sp_htab e) [])) te_keep).
+  - apply map_ext. intro e. rewrite strip_sp_htab. reflexivity.
+  - intro e. unfold te_keep. rewrite strip_sp_htab. destruct (trim is_ows e); reflexivity.
+Qed.
+
+Lemma to_lower_nonempty e : nonempty (to_lower e) = nonempty e.
+Proof. destruct e; reflexivity. Qed.
+
+Lemma list_elems_keep v :
+  list_elems v = map (fun e => to_lower (trim is_ows e)) (filter te_keep (split_on 44 v [])).
+Proof.
+  unfold list_elems. induction (split_on 44 v []) as [|e l IH]; cbn [map filter]; auto.
+  rewrite to_lower_nonempty. unfold te_keep at 1. destruct (nonempty (trim is_ows e)); cbn [map]; rewrite IH; reflexivity.
 Qed.
 
 (* the decision taken on the element list, on both sides *)
@@ -222,7 +234,7 @@ Qed.
 
 Lemma clean_s0 : clean s_0 = true. Proof. reflexivity. Qed.
 
-Lemma cl_stage_agree (d : devs) h :
+Lemma cl_stage_agree h :
   (forall v, hget h s_CONTENT_LENGTH = Some v -> clean v = true) ->
   choice_framing (model_cl_stage h) =
   match lookup h K_CL with
@@ -245,22 +257,22 @@ Proof.
   - reflexivity.
 Qed.
 
-Theorem framing_decision_dev : forall h ver,
+Theorem framing_decision : forall h ver,
   (forall v, hget h s_CONTENT_LENGTH = Some v -> clean v = true) ->
-  choice_framing (model_framing h ver) = framing_of dev_te_ws ver h.
+  choice_framing (model_framing h ver) = framing_of ver h.
 Proof.
   intros h ver Hclean. unfold model_framing, model_te_stage, framing_of.
   change v11 with s_1_1.
   destruct (beqb ver s_1_1).
   - change lookup with hget. change K_TE with s_TRANSFER_ENCODING.
-    assert (Ete : match hget h s_TRANSFER_ENCODING with Some v => list_elems dev_te_ws v | None => [] end
+    assert (Ete : match hget h s_TRANSFER_ENCODING with Some v => list_elems v | None => [] end
                   = map (fun e => to_lower (trim is_ows e))
-                        (filter nonempty (split_on 44 (hget_default h s_TRANSFER_ENCODING []) []))).
-    { unfold hget_default. destruct (hget h s_TRANSFER_ENCODING); reflexivity. }
+                        (filter te_keep (split_on 44 (hget_default h s_TRANSFER_ENCODING []) []))).
+    { unfold hget_default. destruct (hget h s_TRANSFER_ENCODING); [apply list_elems_keep|reflexivity]. }
     rewrite Ete, te_encodings_elems.
-    pose proof (te_verdict_agree (filter nonempty (split_on 44 (hget_default h s_TRANSFER_ENCODING []) []))) as V.
+    pose proof (te_verdict_agree (filter te_keep (split_on 44 (hget_default h s_TRANSFER_ENCODING []) []))) as V.
     unfold te_verdict_model in V.
-    set (L := filter nonempty (split_on 44 (hget_default h s_TRANSFER_ENCODING []) [])) in *.
+    set (L := filter te_keep (split_on 44 (hget_default h s_TRANSFER_ENCODING []) [])) in *.
     set (EM := map (fun e => lower_latin1 (trim is_ows e)) L) in *.
     set (ER := map (fun e => to_lower (trim is_ows e)) L) in *.
     destruct (negb (forallb (fun e => beqb e s_chunked) EM)).
@@ -269,7 +281,7 @@ Proof.
       * reflexivity.
     + destruct EM as [|m EM'].
       * destruct ER as [|e [|e2 ER']]; try contradiction.
-        rewrite (cl_stage_agree dev_te_ws).
+        rewrite cl_stage_agree.
         -- change lookup with hget. change K_CL with s_CONTENT_LENGTH. rewrite hget_hpop_other by reflexivity. reflexivity.
         -- intros v Hv. rewrite hget_hpop_other in Hv by reflexivity. auto.
       * destruct (negb (length (m :: EM') =? 1)%nat).
@@ -278,59 +290,13 @@ Proof.
            ++ reflexivity.
         -- destruct ER as [|e [|e2 ER']]; try contradiction.
            rewrite V. reflexivity.
-  - apply (cl_stage_agree dev_te_ws). exact Hclean.
+  - apply cl_stage_agree. exact Hclean.
 Qed.
 
-(* the strict reference ignores whitespace-only list elements (RFC 9110
-   5.6.1); the code does not.  Outside that class the two references agree. *)
-Definition te_ws_free (h : hdict) : bool :=
-  match lookup h K_TE with
-  | Some v => forallb (fun e => negb (nonempty e) || nonempty (trim is_ows e)) (split_on 44 v [])
-  | None => true
-  end.
-
-Lemma to_lower_nonempty e : nonempty (to_lower e) = nonempty e.
-Proof. destruct e; reflexivity. Qed.
-
-Lemma list_elems_ws_free v :
-  forallb (fun e => negb (nonempty e) || nonempty (trim is_ows e)) (split_on 44 v []) = true ->
-  list_elems no_devs v = list_elems dev_te_ws v.
-Proof.
-  unfold list_elems. cbn [dv_te_ws_element no_devs dev_te_ws].
-  induction (split_on 44 v []) as [|e l IH]; cbn [forallb map filter]; auto.
-  intro H. apply andb_true_iff in H as [H1 H2]. rewrite to_lower_nonempty.
-  destruct (nonempty e) eqn:E1; cbn [negb orb] in H1.
-  - rewrite H1. cbn [map]. rewrite IH; auto.
-  - destruct e; try discriminate. cbn. apply IH; auto.
-Qed.
-
-Lemma framing_of_ws_free ver h : te_ws_free h = true ->
-  framing_of no_devs ver h = framing_of dev_te_ws ver h.
-Proof.
-  unfold te_ws_free, framing_of. intro H.
-  destruct (lookup h K_TE) as [v|]; auto.
-  rewrite (list_elems_ws_free v H). reflexivity.
-Qed.
-
-Theorem framing_decision_partial : forall h ver,
-  (forall v, hget h s_CONTENT_LENGTH = Some v -> clean v = true) ->
-  te_ws_free h = true ->
-  choice_framing (model_framing h ver) = framing_of no_devs ver h.
-Proof.
-  intros h ver Hc Hw. rewrite framing_of_ws_free by exact Hw. apply framing_decision_dev. exact Hc.
-Qed.
-
-(* "Transfer-Encoding: chunked" + "Transfer-Encoding: " *)
-Definition te_ws_witness : hdict := [(s_TRANSFER_ENCODING, s_chunked ++ [44; 32])].
-
-Lemma framing_decision_refuted :
-  exists h ver, (forall v, hget h s_CONTENT_LENGTH = Some v -> clean v = true) /\
-                choice_framing (model_framing h ver) <> framing_of no_devs ver h.
-Proof.
-  exists te_ws_witness, s_1_1. split.
-  - intros v H. discriminate H.
-  - vm_compute. discriminate.
-Qed.
+(* a second, empty Transfer-Encoding line is ignored (repaired by 96bc60d) *)
+Example framing_ws_element :
+  model_framing [(s_TRANSFER_ENCODING, s_chunked ++ [44; 32])] s_1_1 = MChunked.
+Proof. vm_compute. reflexivity. Qed.
 
 Example framing_decision_nontrivial :
   model_framing [(s_HOST, [104]); (s_TRANSFER_ENCODING, [32; 67; 104; 117; 110; 107; 101; 100; 44])] s_1_1 = MChunked
